@@ -22,6 +22,8 @@ Record tcase := mkTls {
   t_hosthdr : option string;       (* Host header already present in the request parts handed to the
                                       transport (set by the caller); no function below reads it: the
                                       server name offered and checked is the URI host whatever it says *)
+  t_connect : bool;                (* the request method is CONNECT: no function below reads it; the hop to the URI host
+                                      is secured by the URI scheme whatever the method *)
   t_hk : hostkind;                 (* O6 *)
   t_covered : bool;                (* the certificate the server presents covers the URI host [t_host] (O6) *)
   t_cert : cert;
